@@ -39,6 +39,7 @@
 #include <bitset>
 #include <iomanip>
 #include <iostream>
+#include <limits>
 #include <optional>
 #include <tuple>
 #include <boost/lexical_cast.hpp>
@@ -2896,13 +2897,23 @@ protected:
             format( valCopy);
             auto const  pos = boost::lexical_cast< size_t>( valCopy);
             if (pos >= mDestVar.size())
+            {
+               if (pos == std::numeric_limits< size_t>::max())
+                  throw std::runtime_error( "position " + listVal
+                     + " is outside the range of a vector");
                mDestVar.resize( (pos + 1) * 1.5);
+            } // end if
             mDestVar[ pos] = !mResetFlags;
          } else
          {
             auto const  pos = boost::lexical_cast< size_t>( listVal);
             if (pos >= mDestVar.size())
+            {
+               if (pos == std::numeric_limits< size_t>::max())
+                  throw std::runtime_error( "position " + listVal
+                     + " is outside the range of a vector");
                mDestVar.resize( (pos + 1) * 1.5);
+            } // end if
             mDestVar[ pos] = !mResetFlags;
          } // end if
       } // end for
